@@ -167,8 +167,7 @@ def _parse(out, res):
     m2 = _re_prop.search(out)
     if m2 and res.violated is None:
         res.violated = m2.group(1)
-    if res.violated is None and "The postcondition has been violated" in out or \
-       (res.violated is None and "Postcondition" in out and "violated" in out):
+    if res.violated is None and re.search(r"Postcondition \S+ .*is false|postcondition has been violated", out, re.I):
         res.violated = "POSTCONDITION"
     if res.violated is None and "Assumption" in out and "is false" in out:
         res.violated = "ASSUME"
